@@ -177,8 +177,9 @@ def run_clock_group(case):
             viol.append(v)
         if len(viol) > 50:
             break
-    return {'viol': viol, 'states': nstates, 'transitions': nstates, 'traces': nexec,
-            'outcome': 'n_outcomes=%d' % len(outcomes), 'nontrivial': len(outcomes) > 1 or depth == 0,
+    return {'viol': viol, 'states': nstates, 'transitions': nstates, 'traces': nexec, 'evaluations': nexec,
+            'nontrivial_count': len(outcomes),   # distinct step patterns observed in this group
+            'outcome': 'n_outcomes=%d' % len(outcomes),
             'info': {'executions': nexec, 'outcomes': sorted(outcomes)[:6]}}
 
 
